@@ -99,6 +99,15 @@ func buildC08(tier string, seed int64) *Family {
 	for _, t := range []string{"string(9007)", "string(-9007)", "string(0 div 0)", "string(number('x'))", "string(count(*))", "string(9007 + 1)", "string(9007 * -1)", "string(0 * 9007)", "string(floor(9001))", "string(string-length(a))", "concat(9007, '')", "string(number(a))"} {
 		insts = append(insts, c08Inst(t, cfg, strHoles))
 	}
+	// concrete literal probes of string(): non-integers, many digits, tiny and huge magnitudes
+	for _, t := range []string{"string(123456.789)", "string(1 div 3)", "string(0.1 + 0.2)", "string(0.00001)", "string(1.5)", "string(-0.25)", "string(100000 * 100000)",
+		"string(1 div 0)", "string(-1 div 0)", "string(0.000001234)", "string(999999.999999)", "string(2 div 3 * 1000)", "string(12345678.9)", "string(.5)", "string(5.)",
+		"concat(1 div 3, '')", "string-length(string(1 div 3))", "string(number('0.1') * 3)", "string(1e0)"} {
+		if t == "string(1e0)" {
+			continue
+		}
+		insts = append(insts, c08Inst(t, numCfg, nil))
+	}
 	// seeded deeper trees (depth 3-4)
 	var gen func(d int) string
 	gen = func(d int) string {
